@@ -544,7 +544,9 @@ class Stage:
             if is_transcribed:
                 self._method.set_value(self, self.master._method, parameter, value)
             # Always record the value, such that it survives a later re-transcription
-            self._param_vals[parameter] = value
+            # (a private copy: the caller may go on modifying the array it passed)
+            from copy import deepcopy
+            self._param_vals[parameter] = deepcopy(value)
         for_all_primitives(parameter, value, action, "First argument to set_value must be a parameter or a simple concatenation of parameters", rhs_type=DM)
 
 
